@@ -4,6 +4,7 @@ from __future__ import annotations
 from abc import abstractmethod
 from asyncio import shield
 from collections.abc import Iterable, Sequence
+from dataclasses import replace
 from typing import Generic, Any
 
 from pymap.concurrent import Event
@@ -177,6 +178,8 @@ class BaseSession(SessionInterface, Generic[MessageT]):
         dest_selected = self._pick_selected(selected, mbx)
         uids: list[int] = []
         for append_msg in messages:
+            flag_set = append_msg.flag_set - mbx.session_flags
+            append_msg = replace(append_msg, flag_set=flag_set)
             msg = await mbx.append(append_msg, recent=not dest_selected)
             if dest_selected:
                 dest_selected.session_flags.add_recent(msg.uid)
